@@ -1,4 +1,4 @@
-from stages import beaconnet
+from stages import beaconnet, grouptransition
 
 
 def run(ctx):
@@ -14,6 +14,8 @@ def run(ctx):
         ctx.notes.append("MC_BeaconReshare_racelive: %s" % (r2.violated or r2.error or "holds"))
         r3 = ctx.model_check("MC_BeaconReshare4", "MC_BeaconReshare_restart.cfg", expect_ok=False, timeout=1500)  # n=4, t=3, two restarts in the window
         ctx.notes.append("MC_BeaconReshare_restart (F41 on the design): %s" % (r3.violated or r3.error or "holds"))
+    # the rule that decides whether a reshared group may be adopted at all
+    grouptransition.run(ctx)
     schemes = beaconnet.schemes_for(ctx, 1)
     for sch in schemes:
         beaconnet.run(ctx, "C07", scheme=sch)
